@@ -108,7 +108,7 @@ func typeKey(t types.Type) string {
 	if s, ok := typeKeyCache[t]; ok {
 		return s
 	}
-	s := types.TypeString(t, nil)
+	s := strings.ReplaceAll(types.TypeString(t, nil), "interface{}", "any") // one spelling for the empty interface
 	typeKeyCache[t] = s
 	return s
 }
